@@ -84,6 +84,36 @@ def perform(a: Dict[str, Any], w, rng, rec, tg) -> List[Dict[str, Any]]:
                 out.append({"prop": prop, "clause": "rejected-use-leaves-every-block-unchanged", "ok": bool(same),
                             "detail": "" if same else "blocks differ after the rejected call", "method": "seq:" + sub["kind"]})
         return out
+    if kind == "mzi":
+        # exactly the construction of examples/mach_zehnder_interferometer.py, with the sampling recorded
+        import jax.numpy as jnp
+        from photon_weave.operation import CompositeOperationType, FockOperationType, Operation
+        phi = float(a["phi"])
+        env1, env2 = w.envs[0], w.envs[1]
+        bs1 = Operation(CompositeOperationType.NonPolarizingBeamSplitter, eta=jnp.pi / 4)
+        ps = Operation(FockOperationType.PhaseShift, phi=phi)
+        bs2 = Operation(CompositeOperationType.NonPolarizingBeamSplitter, eta=jnp.pi / 4)
+        ce = w.ces[0]
+        ce.apply_operation(bs1, env1.fock, env2.fock)
+        env1.fock.apply_operation(ps)
+        ce.apply_operation(bs2, env1.fock, env2.fock)
+        n0 = len(rec.draws)
+        out1 = env1.fock.measure()
+        out2 = env2.fock.measure()
+        draws = [d for d in rec.draws[n0:] if d["p"] is not None and len(d["p"]) >= 2]
+        want = np.sin(phi / 2) ** 2          # probability of finding the photon in the first output (this splitter convention)
+        # the photon-number draw of the first output port is the one that is not a certain re-measurement of a label
+        cand = [d for d in draws if abs(float(d["p"][1]) - want) <= 1e-8 and abs(float(d["p"][0]) - (1 - want)) <= 1e-8
+                and float(np.sum(np.abs(d["p"][2:]))) <= 1e-8]
+        certain = [d for d in draws if max(d["p"]) > 1 - 1e-9]
+        ok = bool(cand) and len(cand) + len(certain) >= len(draws)
+        draws = cand or [d for d in draws if max(d["p"]) <= 1 - 1e-9] or draws
+        out.append({"prop": "C11", "clause": "mach-zehnder-output-probabilities-are-sin^2(phi/2)-and-cos^2(phi/2)", "ok": ok,
+                    "detail": "" if ok else f"phi={phi}: sampled distribution {None if not draws else np.round(draws[0]['p'], 8).tolist()}, expected [{1 - want:.8f}, {want:.8f}]",
+                    "method": "mach_zehnder"})
+        o1, o2 = out1[env1.fock], out2[env2.fock]
+        out.append({"prop": "C11", "clause": "exactly-one-photon-is-detected", "ok": o1 + o2 == 1, "detail": f"detected {o1} + {o2}", "method": "mach_zehnder"})
+        return out
     if kind == "trace_out":
         if entry == "self":
             tg[0].trace_out()
